@@ -298,4 +298,54 @@ theorem pk_elems_oids (h : HN) (p o : Option Nat) : (Pk.DN.elems (h.toPk p o)).m
   obtain ⟨i, n, a, sc, ks, hk⟩ := subs_isEl h p e he
   simp [hk, Pk.DN.oid, HN.id]
 
+/-! ### the DOM constructor (`Dom.mk`) against the trees of model (1) -/
+
+mutual
+/-- a parsed node of the DOM model (`Dom.FN`: what its tree builder is given) as a tree of model (1): plain
+    attribute store, self-closing kept only without content (as `Dom.mk` and the parser do) -/
+def fnNode : Dom.FN → Node
+  | .text s => .text s
+  | .el name attrs sc kids => .elem name (plainState attrs) ((sc || Dom.isVoid name) && kids.isEmpty) (fnNodeL kids)
+def fnNodeL : List Dom.FN → List Node
+  | [] => []
+  | k :: ks => fnNode k :: fnNodeL ks
+end
+
+theorem normL_empty_text (ks : List Node) : normL (.text [] :: ks) = normL ks := by
+  simp only [normL]
+  split
+  · rename_i s' r heq; rw [heq]; simp
+  · simp
+
+mutual
+/-- what `Dom.mk` builds — the leading empty indent block, identities, cached fields — is, once the identities
+    are forgotten and the text normalised, the parsed node itself -/
+theorem mk_norm : ∀ (f : Dom.FN) (p o : Option Nat) (n : Nat),
+    (ofDom (Dom.mk p o f n).1).toTree.norm = (fnNode f).norm
+  | .text s, _, _, _ => by simp [fnNode]
+  | .el name attrs sc kids, p, o, n => by
+    rw [Dom.mk_el]
+    simp only [ofDom_el, ofDomL_cons, ofDom_text, toTree_el, toTreeL_cons, toTree_text, fnNode, Node.norm,
+      normL_empty_text, mkL_norm kids (some n) o (n + 1)]
+theorem mkL_norm : ∀ (fs : List Dom.FN) (p o : Option Nat) (n : Nat),
+    normL (toTreeL (ofDomL (Dom.mkL p o fs n).1)) = normL (fnNodeL fs)
+  | [], _, _, _ => by simp [fnNodeL]
+  | f :: fs, p, o, n => by
+    rw [Dom.mkL_cons]
+    simp only [ofDomL_cons, toTreeL_cons, fnNodeL]
+    have h1 := mk_norm f p o n
+    have h2 := mkL_norm fs p o (Dom.mk p o f n).2
+    cases f with
+    | text s =>
+      simp only [Dom.mk_text, ofDom_text, toTree_text, fnNode] at h2 ⊢
+      simp only [normL, h2]
+    | el name attrs sc kids =>
+      have e1 : ∃ nm a sc' ks, (ofDom (Dom.mk p o (.el name attrs sc kids) n).1).toTree = .elem nm a sc' ks := by
+        rw [Dom.mk_el, ofDom_el, toTree_el]; exact ⟨_, _, _, _, rfl⟩
+      obtain ⟨nm, a, sc', ks, e1⟩ := e1
+      rw [e1] at h1 ⊢
+      simp only [fnNode, Node.norm, Node.elem.injEq] at h1 ⊢
+      simp only [normL, h1.1, h1.2.1, h1.2.2.1, h1.2.2.2, h2]
+end
+
 end AHP.TM
